@@ -538,6 +538,9 @@ class LabelRows(Filter[Iterable[Union[Dense,Sparse]],Iterable[Union[Dense,Sparse
             ind = first.headers[label] if isinstance(label,str) else label
             return map(LabelDense, rows, repeat(ind), repeat(tipe))
         else:
+            #sparse rows that carry headers are keyed by header, so an index label is translated to its header
+            inv = getattr(first,'_inv',None)
+            if inv and not isinstance(label,str) and label in inv: label = inv[label]
             return map(LabelSparse, rows, repeat(label), repeat(tipe))
 
 class EncodeCatRows(Filter[Iterable[Union[Any,Dense,Sparse]], Iterable[Union[Any,Dense,Sparse]]]):
